@@ -150,6 +150,54 @@ class Graph:
             return [self.nodes[sid]]
         return None
 
+    def path_flags(self, start, target_pred, flags, avoid=None, avoid_edge=None):
+        """like path(), but tracks the listed local bool variables (assigned literal true/false, tested by
+        `if (flag)` / `if (!flag)`) and prunes branch arms that contradict their known value"""
+        from collections import deque
+        flags = list(flags)
+        sid = start.id if isinstance(start, Node) else start
+        s0 = (sid, tuple([None] * len(flags)))
+        prev = {s0: None}
+        dq = deque([s0])
+        while dq:
+            st = dq.popleft()
+            x, vals = st
+            n = self.nodes[x]
+            if st != s0 and avoid is not None and avoid(n):
+                continue
+            if target_pred(n) and st != s0:
+                out = []
+                while st is not None:
+                    out.append(self.nodes[st[0]])
+                    st = prev[st]
+                return out[::-1]
+            vals = list(vals)
+            if n.kind == "ldef" and n.ev["var"] in flags:
+                r = n.ev.get("rhs", "").strip()
+                vals[flags.index(n.ev["var"])] = True if r == "true" else (False if r == "false" else None)
+            elif n.kind == "call":
+                for v in n.ev.get("defs", []):
+                    if v in flags:
+                        vals[flags.index(v)] = None
+            tested = None
+            if n.kind == "branch" and n.cond and len(n.succ) == 2 and n.cond.get("op") == "truth" and len(n.cond["l"]["refs"]) == 1 and n.cond["l"]["refs"][0] in flags \
+                    and n.cond["l"]["text"].strip("!() ") == n.cond["l"]["refs"][0]:
+                tested = flags.index(n.cond["l"]["refs"][0])
+            for s, i in n.succ:
+                if avoid_edge is not None and avoid_edge(n, i):
+                    continue
+                nv = list(vals)
+                if tested is not None:
+                    arm_value = (i == 0) != bool(n.cond.get("neg"))   # value of the flag on this arm
+                    if vals[tested] is not None and vals[tested] != arm_value:
+                        continue
+                    nv[tested] = arm_value
+                ns = (s, tuple(nv))
+                if ns not in prev:
+                    prev[ns] = st
+                    dq.append(ns)
+        return None
+
     def bypass(self, sink_pred, guard_pred=None, guard_edge=None, start=None):
         """witness path entry→sink that avoids every guard node / guard edge; None when every
         path to a sink passes a guard (the must-pass-through rule)"""
